@@ -7,6 +7,7 @@ import (
 	"fmt"
 	"os"
 	"reflect"
+	"strings"
 	"time"
 
 	"github.com/vimeo/dials"
@@ -243,6 +244,12 @@ func (s *Set) registerFlags(tmpl reflect.Value, ptyp reflect.Type) error {
 			continue
 		}
 
+		// The flag package panics in FlagSet.Var for these names; they come
+		// straight from struct tags, so report them as an error instead.
+		if nameErr := checkFlagName(name); nameErr != nil {
+			return fmt.Errorf("cannot register a flag for field %q: %w", sf.Name, nameErr)
+		}
+
 		ft := sf.Type
 
 		k := ft.Kind()
@@ -476,6 +483,17 @@ func (s *Set) Value(_ context.Context, t *dials.Type) (reflect.Value, error) {
 	}
 
 	return s.tfmr.ReverseTranslate(s.trnslVal)
+}
+
+// checkFlagName applies the rules that flag.FlagSet.Var enforces by panicking.
+func checkFlagName(name string) error {
+	switch {
+	case strings.HasPrefix(name, "-"):
+		return fmt.Errorf("flag name %q begins with -", name)
+	case strings.Contains(name, "="):
+		return fmt.Errorf("flag name %q contains =", name)
+	}
+	return nil
 }
 
 func stripTypePtr(t reflect.Type) reflect.Type {
